@@ -7,14 +7,20 @@ Local Open Scope Z_scope.
 (* C19: (is_object, method name, the call on a derived value returned the registered outer value) *)
 Definition c19_model (is_obj : bool) (name : bytes) : bool :=
   fluent_ok 6 (if is_obj then gen_object_methods else gen_list_methods) name.
+(* a method whose return expressions the translator cannot read has no prediction: the harness's own predicate decides alone *)
 Definition c19_check (c : bool * bytes * bool) : bool :=
-  let '(is_obj, name, outer) := c in Bool.eqb (c19_model is_obj name) outer.
+  let '(is_obj, name, outer) := c in
+  negb (readable 6 (if is_obj then gen_object_methods else gen_list_methods) name) || Bool.eqb (c19_model is_obj name) outer.
 
 (* C15: a fair round-robin schedule, long enough for every thread to finish *)
 Fixpoint round_robin (n rounds : nat) : list nat :=
   match rounds with O => [] | S r => seq 0 (S n) ++ round_robin n r end.
+(* the skeleton EXTRACTED from the source when the method synchronises with a WaitGroup; the modelled one otherwise (the method then
+   uses a shape the translator does not read: only the observations below tie it) *)
+Definition skel_or (g : option skel) (m : skel) : skel := match g with Some s => s | None => m end.
 Definition skel_of (k : Z) : skel :=
-  if k =? 0 then gen_list_ForEachAsync else if k =? 1 then gen_list_MapAsync else if k =? 2 then gen_object_ForEachAsync else gen_object_MapAsync.
+  if k =? 0 then skel_or gen_list_ForEachAsync skel_foreach else if k =? 1 then skel_or gen_list_MapAsync skel_list_map
+  else if k =? 2 then skel_or gen_object_ForEachAsync skel_foreach else skel_or gen_object_MapAsync skel_object_map.
 Definition c15_model (k : Z) (n : nat) :=
   let s := arun (skel_of k) n (a_init n) (round_robin n (2 * n + 12)) in
   (a_returned s, isort Nat.leb (map snd (a_log s)), forallb (fun i => worker_done (skel_of k) s i) (seq 0 n),
